@@ -18,8 +18,8 @@ Line protocol for C11.
            end of the literal) | `err` (unterminated literal)
       `o`: the engine reported some other parse error → `other` | `err`
       `r`: the engine stopped at trailing input after the literal → `rest <hex trimmed rest>` | `err`
-  `rxm …` regex matching cases: the model declines (`skip`); they are checked harness-side
-      against a reference matcher.
+  `rxm …` regex matching cases: answered by `WfModel/Drv/Rx.lean` (registered before this
+      handler) with the proved derivative matcher; the fallback here declines (`skip`).
 `<hex literal>` is the literal as written in the filter (`"…"`, `r"…"`, `r#"…"#`).
 -/
 namespace WfModel.Drv.Wild
